@@ -61,6 +61,14 @@ impl SwarmDriver {
             .map(|(id, (key, senders, result_map, _cfg))| (*id, key.clone(), senders.len(), result_map.len()))
             .collect()
     }
+    /// Content hashes of the versions gathered so far for a pending `get_record` query, in the iteration order of the
+    /// driver's own map (the order its merge of a split result will visit them in).
+    pub fn verif_get_record_version_order(&self, id: &kad::QueryId) -> Vec<xor_name::XorName> {
+        self.pending_get_record
+            .get(id)
+            .map(|(_key, _senders, result_map, _cfg)| result_map.keys().cloned().collect())
+            .unwrap_or_default()
+    }
     /// Issues recorded against `peer` (Debug form) and whether it is considered bad.
     pub fn verif_node_issues(&self, peer: &PeerId) -> (Vec<String>, bool) {
         match self.bad_nodes.get(peer) {
